@@ -425,6 +425,128 @@ example : ¬ (Store.demo.define 0 "bad" (.vec 9)).WF := fun h => by
   have := h.frame_vals 0 _ rfl ("bad", .vec 9) (List.Mem.tail _ (List.Mem.tail _ (List.Mem.head _)))
   simp [Store.AllocIn, Store.demo] at this
 
+/-! ## 3 and 5 at the level of the whole evaluator (mutual induction on fuel) -/
+
+/-- Every evaluator function only ever appends frames and cells, whatever the fuel and whatever
+the outcome (value, error, out of fuel): `Store.Grows σ σ'` — sizes never decrease; every frame
+of `σ` keeps its parent link and its defined names; every cell of `σ` keeps its mutability flag
+and its length; an immutable cell keeps its contents. No hypothesis on the store is needed. -/
+theorem frames_monotone (fuel : Nat) :
+    (∀ σ ρ e, Store.Grows σ (evalExpr fuel σ ρ e).2) ∧
+    (∀ σ ρ es, Store.Grows σ (evalArgs fuel σ ρ es).2) ∧
+    (∀ σ p args env, Store.Grows σ (applyProcedure fuel σ p args env).2) ∧
+    (∀ σ p args env, Store.Grows σ (applyLoop fuel σ p args env).2) ∧
+    (∀ σ lam cenv args, Store.Grows σ (applyScheme fuel σ lam cenv args).2) ∧
+    (∀ σ ρ ds, Store.Grows σ (evalDefs fuel σ ρ ds).2) ∧
+    (∀ σ ρ es, Store.Grows σ (evalBody fuel σ ρ es).2) ∧
+    (∀ σ ρ e, Store.Grows σ (evalTail fuel σ ρ e).2) :=
+  have h := growsAt fuel
+  ⟨h.expr, h.args, h.proc, h.loop, h.scheme, h.defs, h.body, h.tail⟩
+
+/-- the program `((lambda (a) (set! x a) (vector a)) 5)` -/
+def prog : Expr :=
+  .call (.lambda (.mk ⟨["a"], none⟩ []
+      [.assign "x" (.sym "a" none) none, .call (.sym "vector" none) [.sym "a" none] none]) none)
+    [.prim (.int 5) none] none
+
+/-- non-vacuity (the statement has no hypothesis; this instance is not the trivial reflexive one):
+running `prog` in frame 3 of `demo` with `vector` bound in the root. `#eval` shows the run returns
+`#2`, a fresh one-element vector, in a store with 5 frames (frame 4, child of 3, binds `a ↦ 5`)
+and 3 cells, where `x` seen from frame 3 is now `5` and the root's `x` is still `1`.
+(The evaluator is defined by well-founded recursion, so closed runs are not checked by `rfl`.) -/
+example : Store.Grows (Store.demo.define 0 "vector" (.builtin .vector))
+    (evalExpr 10 (Store.demo.define 0 "vector" (.builtin .vector)) 3 prog).2 :=
+  (frames_monotone 10).1 _ 3 prog
+
+/-- Literal vectors never change: a cell that is immutable in `σ` has exactly the same contents
+after any evaluation from `σ` (every `vector-set!` on it was rejected). Stated for `evalExpr`;
+it holds for all eight functions by `frames_monotone`. -/
+theorem immutable_cells_never_change (fuel : Nat) (σ : Store) (ρ : Nat) (e : Expr) {i : Nat} {c : VecCell}
+    (hc : σ.vecs[i]? = some c) (hm : c.mutable = false) : (evalExpr fuel σ ρ e).2.vecs[i]? = some c := by
+  obtain ⟨c', hc', _, _, heq⟩ := (evalExpr_grows fuel σ ρ e).cell i c hc
+  rw [hc', heq hm]
+
+/-- Each procedure call creates fresh bindings. A call (`applyScheme`, one fuel step) of a
+closure over frame `cenv` runs in frame `ρ₁ = σ.frames.size`, which is not allocated in `σ` — so,
+`σ` being well formed, no value stored anywhere in `σ` (no closure, no list element, no vector
+item) refers to it. After the call, whatever its outcome, that frame exists and its parent is
+still `cenv`; all frames of `σ` still have their parents and their names (`Store.Grows`). Any
+later call — from any store `σ₂` reached from the call's result store — runs in a frame
+`ρ₂ = σ₂.frames.size > ρ₁`: two calls never share their frame, and in `σ₂` frame `ρ₁` is still
+the first call's frame (same parent), so closures created by different calls have different
+environments. (Which bindings the body's own `set!`/`define` change is `set_locality` /
+`set_visibility` / `define_visibility`; the parameters go to the fresh frame only:
+`applyScheme_alloc`.) -/
+theorem fresh_frame_per_call {fuel : Nat} {σ σ₁ : Store} {lam : Lambda} {cenv : Nat} {args : List Value}
+    {r : Except SErr TailRes} (h : applyScheme (fuel + 1) σ lam cenv args = (r, σ₁))
+    {σ₂ : Store} (hg : Store.Grows σ₁ σ₂) :
+    let ρ₁ := σ.frames.size
+    σ.frames[ρ₁]? = none ∧
+    (σ.WF → (∀ (i : Nat) (f : Frame), σ.frames[i]? = some f → ∀ kv ∈ f.defs, ρ₁ ∉ kv.2.frameIds) ∧
+            (∀ (i : Nat) (c : VecCell), σ.vecs[i]? = some c → ∀ v ∈ c.items, ρ₁ ∉ v.frameIds)) ∧
+    Store.Grows σ σ₁ ∧ ρ₁ < σ₁.frames.size ∧ σ₁.parentOf ρ₁ = some cenv ∧
+    σ₂.parentOf ρ₁ = some cenv ∧ ρ₁ < σ₂.frames.size ∧ σ₂.frames[σ₂.frames.size]? = none ∧
+    (σ₂.newFrame (some cenv)).1 ≠ ρ₁ := by
+  intro ρ₁
+  have g0 : Store.Grows (σ.newFrame (some cenv)).2 σ₁ := by
+    have := applyScheme_succ_grows fuel σ lam cenv args; rwa [h] at this
+  have hf0 : (σ.newFrame (some cenv)).2.frames[ρ₁]? = some { parent := some cenv, defs := [] } := by
+    simp [ρ₁]
+  obtain ⟨f₁, hf₁, hp₁, -⟩ := g0.frame ρ₁ _ hf0
+  obtain ⟨f₂, hf₂, hp₂, -⟩ := hg.frame ρ₁ _ hf₁
+  have hlt₁ : ρ₁ < σ₁.frames.size := Store.getElem?_some_lt hf₁
+  have hlt₂ : ρ₁ < σ₂.frames.size := Store.getElem?_some_lt hf₂
+  refine ⟨by simp [ρ₁], fun wf => ⟨fun i f hf kv hkv hmem => ?_, fun i c hc v hv hmem => ?_⟩,
+    ?_, hlt₁, ?_, ?_, hlt₂, by simp, ?_⟩
+  · exact Nat.lt_irrefl _ ((wf.frame_vals i f hf kv hkv).1 _ hmem)
+  · exact Nat.lt_irrefl _ ((wf.vec_vals i c hc v hv).1 _ hmem)
+  · have := applyScheme_grows (fuel + 1) σ lam cenv args; rwa [h] at this
+  · simp [Store.parentOf, hf₁, hp₁]
+  · simp [Store.parentOf, hf₂, hp₂, hp₁]
+  · simp only [Store.newFrame_fst]; omega
+
+/-- non-vacuity: the hypotheses are satisfiable — a call of the closure `f` of `demo` (over frame
+0) from the well-formed store `demo`, and a second call from the store the first one left. The
+first runs in frame 4, which `demo` does not have; the second in a frame `≠ 4`. -/
+example : Store.demo.WF ∧ Store.demo.frames[4]? = none ∧
+    ((applyScheme 5 Store.demo (.mk ⟨["a"], none⟩ [] [.sym "x" none]) 0 [.nil]).2.newFrame (some 0)).1 ≠ 4 :=
+  ⟨Store.demo_wf, rfl,
+   (fresh_frame_per_call (σ := Store.demo) (fuel := 4) (lam := .mk ⟨["a"], none⟩ [] [.sym "x" none])
+      (cenv := 0) (args := [.nil]) rfl (Store.Grows.refl _)).2.2.2.2.2.2.2.2⟩
+
+/-- The store invariant is an invariant of the whole evaluator. From a well-formed store, with
+the current environment / the procedure and its arguments / the closure's frame allocated,
+every evaluator function returns a well-formed store — whatever the fuel and the outcome — and
+a result that mentions allocated ids only (a value; a list of values; for the tail-position
+functions a value or a pending tail call whose environment is allocated). Together with
+`store_wf_data` (`Store.root.WF`) this makes `WF` hold of every store the interpreter reaches. -/
+theorem store_wf_invariant (fuel : Nat) :
+    (∀ σ ρ e r σ', evalExpr fuel σ ρ e = (r, σ') → σ.WF → ρ < σ.frames.size →
+      σ'.WF ∧ ∀ v, r = .ok v → σ'.AllocIn v) ∧
+    (∀ σ ρ es r σ', evalArgs fuel σ ρ es = (r, σ') → σ.WF → ρ < σ.frames.size →
+      σ'.WF ∧ ∀ vs, r = .ok vs → ∀ v ∈ vs, σ'.AllocIn v) ∧
+    (∀ σ p args env r σ', applyProcedure fuel σ p args env = (r, σ') → σ.WF → σ.AllocIn p →
+      (∀ a ∈ args, σ.AllocIn a) → σ'.WF ∧ ∀ v, r = .ok v → σ'.AllocIn v) ∧
+    (∀ σ p args env r σ', applyLoop fuel σ p args env = (r, σ') → σ.WF → σ.AllocIn p →
+      (∀ a ∈ args, σ.AllocIn a) → σ'.WF ∧ ∀ v, r = .ok v → σ'.AllocIn v) ∧
+    (∀ σ lam cenv args r σ', applyScheme fuel σ lam cenv args = (r, σ') → σ.WF →
+      cenv < σ.frames.size → (∀ a ∈ args, σ.AllocIn a) →
+      σ'.WF ∧ ∀ t, r = .ok t → TailRes.AllocIn σ' t) ∧
+    (∀ σ ρ ds r σ', evalDefs fuel σ ρ ds = (r, σ') → σ.WF → ρ < σ.frames.size → σ'.WF) ∧
+    (∀ σ ρ es r σ', evalBody fuel σ ρ es = (r, σ') → σ.WF → ρ < σ.frames.size →
+      σ'.WF ∧ ∀ t, r = .ok t → TailRes.AllocIn σ' t) ∧
+    (∀ σ ρ e r σ', evalTail fuel σ ρ e = (r, σ') → σ.WF → ρ < σ.frames.size →
+      σ'.WF ∧ ∀ t, r = .ok t → TailRes.AllocIn σ' t) :=
+  have h := wfAt fuel
+  ⟨h.expr, h.args, h.proc, h.loop, h.scheme, h.defs, h.body, h.tail⟩
+
+/-- non-vacuity: the hypotheses hold of the demo store (extended with `vector`), frame 3 and
+`prog`, so the store after running `prog` is well formed. -/
+example : (evalExpr 10 (Store.demo.define 0 "vector" (.builtin .vector)) 3 prog).2.WF :=
+  ((store_wf_invariant 10).1 _ 3 prog _ _ rfl
+    (Store.wf_define Store.demo_wf 0 "vector" (by simp [Store.AllocIn]))
+    (by simp [Store.demo])).1
+
 /-! ## 6. `eqv?` on vectors is identity of cells; pairs have no identity -/
 
 /-- `eqv?` (and `eq?`, the same procedure) on two vector references compares the cell ids: two
